@@ -295,6 +295,29 @@ def run():
                 r.violation("token:differs", "getToken(%r) = %r, construction gives %r (call #%d on this environment)" % (ph, got, exp, rep + 1), {"phone": ph})
         if rep == 0:
             r.sample({"phone": phones[3], "token": exp.decode()})
+    # ---- an environment derived from the stock one with constants of its own (another client build), used in the same process after,
+    # between and before the stock environment: each computes its tokens from ITS constants
+    own_key = base64.b64encode(bytes(bytearray(rng.getrandbits(8) for _ in range(80)))).decode()
+    own_cls = base64.b64encode(bytes(bytearray(rng.getrandbits(8) for _ in range(16)))).decode()
+    own_sig = base64.b64encode(bytes(bytearray(rng.getrandbits(8) for _ in range(300)))).decode()
+    Derived = type("VerifDerivedEnv", (AndroidYowsupEnv,), {"_KEY": own_key, "_MD5_CLASSES": own_cls, "_SIGNATURE": own_sig, "_VERSION": "2.99.1"})
+    KeyOnly = type("VerifKeyOnlyEnv", (AndroidYowsupEnv,), {"_KEY": own_key})
+    stock_sig, stock_cls, stock_key = sig, "WuFH18yXKRVezywQm+S24A==", tables["token"]["of"]["of"][0]["key"]
+
+    def hm(key, sg, cl, ph):
+        return base64.b64encode(hmac.new(base64.b64decode(key)[:64], base64.b64decode(sg) + base64.b64decode(cl) + ph.encode("utf-8"), hashlib.sha1).digest())
+    order = [("stock", AndroidYowsupEnv, stock_key, stock_sig, stock_cls), ("derived", Derived, own_key, own_sig, own_cls), ("stock", AndroidYowsupEnv, stock_key, stock_sig, stock_cls),
+             ("key-only", KeyOnly, own_key, stock_sig, stock_cls), ("derived", Derived, own_key, own_sig, own_cls)]
+    for oi, (label, cls_, k_, s_, c_) in enumerate(order):
+        for ph in phones[:6]:
+            r.case(("token-env", label, oi, ph))
+            try:
+                got = cls_().getToken(ph)
+            except Exception as e:
+                got = repr(e)
+            if got != hm(k_, s_, c_, ph):
+                r.violation("token:environment:%s" % label, "%s environment (use #%d in this process, after %s): getToken(%r) = %r, its own constants give %r" % (
+                    label, oi + 1, [o[0] for o in order[:oi]], ph, got, hm(k_, s_, c_, ph)), {"phone": ph, "env": label})
     request_pipeline(r, rng, tables, sig, thorough)
     # ---- self-test: a trace with a repeated ephemeral key must be rejected by the specification
     bad = [[1, 2, 3, 2, 4]] + traces[:1]
